@@ -645,7 +645,13 @@ func (m *lexModel) advancesThrough(main *ssa.BasicBlock, at ssa.Instruction) (lo
 		var n int64
 		for i := from; i < to && i < len(b.Instrs); i++ {
 			if st, ok := b.Instrs[i].(*ssa.Store); ok && m.isPosAddr(st.Addr) {
-				n++
+				step := int64(1)
+				if bo, isBo := st.Val.(*ssa.BinOp); isBo && bo.Op == token.ADD && m.isPosLoad(bo.X) {
+					if k, isK := ir.ConstInt(bo.Y); isK && k > 1 {
+						step = k // `pos += len("...")`: that many bytes at once
+					}
+				}
+				n += step
 			}
 		}
 		return n
@@ -1093,7 +1099,14 @@ func lex1(c *Ctx) {
 	for _, st := range m.stores {
 		key := fmt.Sprintf("%s:pos=@%s", Q(fn), relLine(c, fn, st.Pos()))
 		if k, isC := ir.ConstInt(st.Val); isC {
-			c.Check(k == 0 && st.Block() == fn.Blocks[0], key, st.Pos(), "initialised to 0 on entry", "the position is set to a constant other than the initial 0")
+			// the initial store: before every other access of the cell, not in a loop
+			first := k == 0 && !ir.InLoop(st.Block())
+			for _, other := range m.stores {
+				if other != st && !(st.Block() == other.Block() && ir.IndexIn(st) < ir.IndexIn(other)) && !(st.Block() != other.Block() && st.Block().Dominates(other.Block())) {
+					first = false
+				}
+			}
+			c.Check(first, key, st.Pos(), "initialised to 0 before anything else touches it", "the position is set to a constant other than the initial 0")
 			continue
 		}
 		if m.eof[st.Val] {
@@ -2040,10 +2053,33 @@ func lex6(c *Ctx) {
 		return
 	}
 	emitted := map[string]bool{}
+	scanned, fixed := map[string]bool{}, map[string]bool{}
 	for _, es := range m.emitSites() {
+		_, isConst := ir.ConstString(es.text)
 		for _, k := range kindsOf(es.kind) {
 			emitted[k] = true
+			if isConst {
+				fixed[k] = true
+			} else {
+				scanned[k] = true
+			}
 		}
+	}
+	// a kind whose extent is decided by a scan (its text is the input between two positions) is not also
+	// emitted with a constant text somewhere else: the second site would decide where the token ends by
+	// a rule of its own
+	{
+		var both []string
+		for k := range scanned {
+			if fixed[k] {
+				both = append(both, k)
+			}
+		}
+		sort.Strings(both)
+		mk := len(c.Obs)
+		c.Check(len(both) == 0, "extent(scanned kinds)", m.fn.Pos(), "a kind emitted with the scanned text is emitted nowhere with a constant text",
+			"emitted both with the scanned text and with a constant text: "+strings.Join(both, ", ")+" (two rules for where such a token ends)")
+		c.Scope(mk, "C08", "C18")
 	}
 	declared := declaredKinds(c)
 	mk := len(c.Obs)
